@@ -433,6 +433,8 @@ def check_case(case):
         if gen.pick(case, "cli", 4) == 0 and not out:
             from vk import cli
 
+            cli.use_case(case)
+
             diff = cli.reference_diff(tf, af, fa, d, case["male_ref"], case["given"], on, on, on)
             if diff:
                 bad("cli:reference", diff)
@@ -503,6 +505,8 @@ def _check_flat(case, d, bad, out):
     # command-line tier (a quarter of the cases): `cnvkit.py reference -t ... [-a ...] [-f ...] [-y]` on the same files
     if gen.pick(case, "cli", 4) == 0 and not out:
         from vk import cli
+
+        cli.use_case(case)
 
         diff = cli.reference_flat_diff(tbed, abed, fa, d, case["male_ref"])
         if diff:
